@@ -232,12 +232,16 @@ package sourcebundle
 //@ func (*Builder).AddRemoteSource -> (diags)
 //@   requires pre.b: builderOpen(b) && (b.targetDir == "" || (isAbs(b.targetDir) && Clean(b.targetDir) == b.targetDir))
 //@   at-panic C12.add-remote.refuses-when-poisoned: b.targetDir == ""
+// and the other way round: no call on a closed or poisoned builder returns at all, whichever path it takes (an early
+// exit for work already done included), so a failed build can never be followed by a call that looks like success
+//@   ensures C12.add-remote.no-return-when-poisoned: old(b.targetDir) != ""
 //@   at-call append C08.add-remote.enqueues-given: a1.sourceAddr == addr && a1.depFinder == depFinder && !mapHas(b.analyzed, a1)
 //@   at-call Builder.resolvePending C12.add-remote.open: b.targetDir != ""
 
 //@ func (*Builder).AddRegistrySource -> (diags)
 //@   requires pre.b: builderOpen(b) && (b.targetDir == "" || (isAbs(b.targetDir) && Clean(b.targetDir) == b.targetDir))
 //@   at-panic C12.add-registry.refuses-when-poisoned: b.targetDir == ""
+//@   ensures C12.add-registry.no-return-when-poisoned: old(b.targetDir) != ""
 //@   at-call append C08.add-registry.enqueues-given: a1.sourceAddr == addr && a1.versions == allowedVersions && a1.depFinder == depFinder
 //@   at-call Builder.resolvePending C12.add-registry.open: b.targetDir != ""
 
